@@ -54,6 +54,115 @@ theorem C20_safeInt32_range (v : Int) :
 theorem C20_tps_bounded (out gen : Nat) (_hg : 0 < gen) : out * 1000 / gen ≤ out * 1000 :=
   Nat.div_le_self _ _
 
+/-! ### Several endpoints, whole rounds, any completion order -/
+
+private theorem get_set_same (c : Cat) (e : Nat) (v : List String) : (c.set e v).get e = v := by
+  induction c with
+  | nil => simp [Cat.set, Cat.get]
+  | cons p ps ih =>
+    unfold Cat.set
+    split
+    · simp [Cat.get]
+    · rename_i h
+      have : (p.1 == e) = false := by simpa using h
+      unfold Cat.get at ih ⊢
+      simp only [List.find?_cons, this]
+      exact ih
+
+private theorem get_set_other (c : Cat) (e e' : Nat) (v : List String) (h : e' ≠ e) : (c.set e v).get e' = c.get e' := by
+  induction c with
+  | nil =>
+    have : (e == e') = false := by simpa using (Ne.symm h)
+    simp [Cat.set, Cat.get, this]
+  | cons p ps ih =>
+    unfold Cat.set
+    split
+    · rename_i hp
+      have hp : p.1 = e := by simpa using hp
+      have h1 : (e == e') = false := by simpa using (Ne.symm h)
+      have h2 : (p.1 == e') = false := by rw [hp]; exact h1
+      simp [Cat.get, List.find?_cons, h1, h2]
+    · unfold Cat.get at ih ⊢
+      cases hpe : (p.1 == e') with
+      | true => simp only [List.find?_cons, hpe]
+      | false =>
+        simp only [List.find?_cons, hpe]
+        exact ih
+
+private theorem foldl_all_err (os : List ParseOutcome) (cur : List String) (h : os.all (· == .err) = true) :
+    os.foldl (fun cur o => (discover cur o).1) cur = cur := by
+  induction os generalizing cur with
+  | nil => rfl
+  | cons o os ih =>
+    simp only [List.all_cons, Bool.and_eq_true] at h
+    have : o = .err := by simpa using h.1
+    subst this
+    simpa [discover] using ih cur h.2
+
+/-- **Refinement to the one-endpoint model**: in the catalogue reached by ANY sequence of results for ANY endpoints,
+    from any starting catalogue, endpoint `e` holds what its own results, in their arrival order, make of what it held. -/
+theorem C20_runAll_projects (evs : List (Nat × ParseOutcome)) (c : Cat) (e : Nat) :
+    (runAll evs c).get e = (eventsFor e evs).foldl (fun cur o => (discover cur o).1) (c.get e) := by
+  unfold runAll
+  induction evs generalizing c with
+  | nil => simp [eventsFor]
+  | cons ev evs ih =>
+    simp only [List.foldl_cons]
+    rw [ih]
+    unfold Cat.step eventsFor
+    by_cases h : ev.1 = e
+    · subst h
+      simp [get_set_same]
+    · have h' : (ev.1 == e) = false := by simpa using h
+      simp [List.filter_cons, h', get_set_other _ _ _ _ (Ne.symm h)]
+
+/-- **Isolation**: what other endpoints say — garbage, errors, anything — never changes endpoint `e`'s catalogue. -/
+theorem C20_other_endpoints_irrelevant (evs : List (Nat × ParseOutcome)) (c : Cat) (e : Nat) :
+    (runAll evs c).get e = (runAll (evs.filter (·.1 == e)) c).get e := by
+  rw [C20_runAll_projects, C20_runAll_projects]
+  unfold eventsFor
+  rw [List.filter_filter]
+  simp
+
+/-- **Bad listings change nothing**: a round (or any number of rounds) in which every result for `e` is an error
+    leaves `e`'s catalogue exactly as it was. -/
+theorem C20_all_errors_keep (evs : List (Nat × ParseOutcome)) (c : Cat) (e : Nat)
+    (h : (eventsFor e evs).all (· == .err) = true) : (runAll evs c).get e = c.get e := by
+  rw [C20_runAll_projects, foldl_all_err _ _ h]
+
+/-- **No poison**: once a listing of `e` is accepted, nothing that was said before — by `e` or anyone — matters any more:
+    `e` holds exactly the named entries of that listing, until its next accepted listing. -/
+theorem C20_last_accepted_listing_wins (pre post : List (Nat × ParseOutcome)) (c : Cat) (e : Nat) (ns : List String)
+    (hpost : (eventsFor e post).all (· == .err) = true) :
+    (runAll (pre ++ (e, .models ns) :: post) c).get e = ns.filter (· != "") := by
+  unfold runAll
+  rw [List.foldl_append, List.foldl_cons]
+  have := C20_all_errors_keep post (Cat.step (List.foldl Cat.step c pre) (e, .models ns)) e hpost
+  unfold runAll at this
+  rw [this]
+  simp [Cat.step, get_set_same, discover]
+
+/-- **Completion order does not matter**: two rounds that deliver the same results per endpoint (whatever the
+    interleaving across endpoints, i.e. whatever the worker count and scheduling) end in the same catalogue. -/
+theorem C20_order_across_endpoints_irrelevant (evs evs' : List (Nat × ParseOutcome)) (c : Cat)
+    (h : ∀ e, eventsFor e evs = eventsFor e evs') (e : Nat) :
+    (runAll evs c).get e = (runAll evs' c).get e := by
+  rw [C20_runAll_projects, C20_runAll_projects, h e]
+
+/-- no nameless model for any endpoint, after any sequence of results, if there was none before -/
+theorem C20_round_never_nameless (evs : List (Nat × ParseOutcome)) (c : Cat) (e : Nat)
+    (h : (c.get e).all (· != "") = true) : ((runAll evs c).get e).all (· != "") = true := by
+  rw [C20_runAll_projects]
+  generalize eventsFor e evs = os
+  generalize c.get e = cur at h
+  induction os generalizing cur with
+  | nil => exact h
+  | cons o os ih => exact ih _ (C20_no_nameless_after_round cur o h)
+
+example : (runAll [(0, .models ["a"]), (1, .err), (0, .err), (2, .models ["", "z"]), (1, .models ["b", "b"])]).get 1 = ["b", "b"] := by decide
+example : (runAll [(0, .models ["a"]), (1, .err), (0, .err), (2, .models ["", "z"])]).get 0 = ["a"] ∧
+    (runAll [(2, .models ["", "z"]), (0, .models ["a"]), (0, .err), (1, .err)]).get 0 = ["a"] := by decide
+
 example : run [.models ["a", "", "b"], .err, .models ["z", "z"]] = ["z", "z"] := by decide
 example : run [.models ["a", "b"], .err] = ["a", "b"] := by decide
 
